@@ -465,7 +465,7 @@ def casadi_expr(pr, info, e):
     return out
 
 
-T5_PENDING = True  # initial derivative constants of non-differentiated variables (reported, undecided)
+T5_PENDING = False  # F36 (initial derivative constants dropped by reduce_matvec) is repaired
 
 
 def t5_affected(info, m, e):
@@ -750,6 +750,10 @@ def corpus():
                        W("states_in", "x0", 8.5, 9.0), W("integral", "u0", 6.0, 7.0), W("states_in", "x0", 5.0, 4.0),
                        W("integral", "x0", 5.0, 4.0)]),
         ("F30/F32/F33", base, [S("c0", t) for t in base["times"]] + [S("nc0", 4.0), S("p0", 4.0)]),
+        # F36: history-based initial derivative of an algebraic state / control in map_path_expression
+        ("F36", dict(base, history=[{"a0": {"times": [1.0, 2.0, 3.0], "values": [1.5, -4.5, 1.75]},
+                                     "u0": {"times": [2.5, 3.0], "values": [1.0, 2.0]}}]),
+         [{"k": "der_at", "name": "a0", "t": 3.0}, {"k": "der_at", "name": "u0", "t": 3.0}]),
     ]
 
 
@@ -789,6 +793,10 @@ def run(c):
     for i in range(n):
         spec = gen_spec(rng)
         solve = (i % 6 == 5)
+        if solve:  # keep the problem feasible: pinned initial values only where they cannot conflict
+            # (a pinned initial derivative + pinned initial state + the DAE at t0 over-determine it)
+            spec["history"] = [{v: {"times": h["times"][-1:], "values": h["values"][-1:]}
+                                for v, h in hm.items() if v in spec["states"]} for hm in spec["history"]]
         batch.append(check_instance(c, spec, rng, nq, solve=solve))
         if len(batch) >= 40:
             run_batch(c, batch)
